@@ -23,11 +23,18 @@ mcInitialUnitsT == {[a \in mcFunded \cup mcFreshT |-> CASE a = "s0" -> 3 [] a = 
 VARIABLE hist
 mcvars == <<vars, hist>>
 
-CONSTANT Record, Depth
+CONSTANT Record, Depth, Weight
 
 mcInit == Init /\ hist = <<>>
+(* -simulate picks uniformly among the generated successors, and most operations change nothing (they are refused);
+   state-changing steps are generated Weight times so that random behaviours get somewhere *)
 mcNext == /\ Len(hist) < Depth
-          /\ \E o \in Ops : Step(o) /\ hist' = IF Record THEN Append(hist, o) ELSE hist
+          /\ \E w \in 1..Weight : \E o \in Ops :
+                /\ Step(o)
+                /\ IF w = 1 THEN TRUE
+                   ELSE /\ vars' # vars
+                        /\ IF o.op = "Create" THEN TRUE ELSE (o.sig \in Canonical /\ o.sub # o.tgt)
+                /\ hist' = IF Record THEN Append(hist, o) ELSE hist
 mcNextFree == \E o \in Ops : Step(o) /\ UNCHANGED hist
 mcSpec    == mcInit /\ [][mcNextFree]_mcvars
 mcSimSpec == mcInit /\ [][mcNext]_mcvars
